@@ -8,7 +8,7 @@ DEFAULTS = dict(
     p_sel=.4, p_merge=.2, p_cycle=.12, p_multi_start=.15, p_multi_choice=.1,
     p_opt_existing=.15, p_single_opt=.06, p_dup_id=0.0,
     n_incompat=(0, 2), p_incompat=.5,
-    p_constraint=0.0, n_conn=(0, 0), p_grp=.3, p_excl=.3, p_conn_cond=.6, p_side_cond=0., max_side=3, max_side_total=5,
+    p_constraint=0.0, n_conn=(0, 0), p_grp=.3, p_excl=.3, p_conn_cond=.6, p_side_cond=0., p_grp_open=0., max_side=3, max_side_total=5,
     n_dv=(0, 0), p_dv_cond=.6, p_dv_link=.0, n_metric=(0, 0),
     exotic=False, allow=(), forbid=(),
 )
@@ -155,8 +155,10 @@ def _grow(rnd, o):
                 if rnd.random() < o['p_grp'] and n - i >= 1:
                     members = []
                     for _m in range(rnd.randint(1, 2)):
-                        members.append(new('conn', prefix, deg=rnd.choice(DEG_ALPHABET[:9]),
-                                           rep=rnd.random() < .5))
+                        # (open-ended members only in classes that ask for them: p_grp_open)
+                        alpha = DEG_ALPHABET if o['p_grp_open'] > 0 and rnd.random() < o['p_grp_open'] \
+                            else DEG_ALPHABET[:9]
+                        members.append(new('conn', prefix, deg=rnd.choice(alpha), rep=rnd.random() < .5))
                     g = new('grp', 'G')
                     entries.append({'grp': g, 'members': members})
                     names.append(g)
